@@ -655,6 +655,15 @@ func toNumber(numString string) (reflect.Value, error) {
 		return reflect.ValueOf(i), nil
 	}
 
+	// binary
+	if len(numString) > 3 && numString[0:3] == "-0b" {
+		i, err := strconv.ParseInt("-"+numString[3:], 2, 64)
+		if err != nil {
+			return nilValue, err
+		}
+		return reflect.ValueOf(i), nil
+	}
+
 	// float
 	if strings.Contains(numString, ".") || strings.Contains(numString, "e") {
 		f, err := strconv.ParseFloat(numString, 64)
